@@ -283,6 +283,7 @@ def run_harness(ll_path, cfg, verbose=False, jobs=4, timeout_s=600):
         elif q['name'] == 'engine-limit' and r['r'] == 'sat':
             if verdict == 'pass': verdict = 'inconclusive'
             ent['reason'] = 'engine limit reachable: %s' % r.get('violated')
+            ent['sample'] = dict(schedule=r['schedule'], inputs=r['inputs'])
         elif q['name'] == 'bound' and r['r'] == 'sat':
             notes.append('schedules longer than K=%d steps exist and are not covered' % X.K)
             ent['sample_unfinished'] = dict(schedule=r['schedule'], ctrl=r.get('ctrl'))
